@@ -32,6 +32,8 @@ def type_matches(fr, v: Any, t: Any) -> bool:
             return True
         if "int" in names and tag == "bool":
             return True
+        if "tuple" in names and isinstance(v, pai.NTup):
+            return True
         return False
     if isinstance(t, pai.FuncRef):
         if t.builtin == "OrderedDict":
@@ -72,6 +74,21 @@ def call_builtin(fr, f, args: list, kwargs: dict, node: ast.AST | None) -> Any:
         if isinstance(recv, HDict) or (isinstance(recv, pai.Inst) and recv.cls in pai.DICT_CLASSES):
             return call_method(fr, recv, short, args, kwargs, node)
         raise AnalysisError(f"external method {name[10:]} is not modelled ({fr.qual})")
+    if name == "dict.fromkeys":
+        d = HDict()
+        for k in fr.iterate(args[0]):
+            d[k.concrete() if isinstance(k, SStr) and k.is_concrete() else k] = args[1] if len(args) > 1 else None
+        return d
+    if name.startswith("ntup:"):
+        t = f.self_obj
+        if name == "ntup:_asdict":
+            d = HDict()
+            for k, v in zip(t.fields, t):
+                d[k] = v
+            return d
+        if args or any(k not in t.fields for k in kwargs):
+            raise pai.PyExc("TypeError" if args else "ValueError", ("_replace",), node)
+        return pai.NTup(t.cls, t.fields, [kwargs.get(k, v) for k, v in zip(t.fields, t)])
     if name.startswith("exc:"):
         return SObj(name, {"args": tuple(args)}, label=name[4:])
     if name.startswith("nested:"):
@@ -286,6 +303,9 @@ def call_builtin(fr, f, args: list, kwargs: dict, node: ast.AST | None) -> Any:
             else:
                 groups.append((k, [it]))
         return [(k, list(g)) for k, g in groups]
+    if name == "filterfalse":
+        pred, seq = args
+        return [x for x in fr.iterate(seq) if not fr.truth(fr.call(pred, [x], {}, node) if pred is not None else x)]
     if name in ("chain", "chain.from_iterable"):
         seqs = fr.iterate(args[0]) if name == "chain.from_iterable" else list(args)
         out_c: list = []
